@@ -2,11 +2,11 @@ INIT Init
 NEXT Next
 CHECK_DEADLOCK FALSE
 CONSTANTS
-  Keys <- KeysBig
-  Alias <- AliasBig
+  Keys <- KeysBigCloEq
+  Alias <- AliasBigCloEq
   IntVal <- IntValBig
   Travs <- AllTravs
   LenEnabled = TRUE
-  MaxSteps = 100
+  MaxSteps = 60
   ViewHist = 0
   EmitAll = FALSE
